@@ -14,7 +14,7 @@ RULE = ("generated AKAI (multi-partition, L/R pairs, duplicate names, programs),
         "and CDDA images; operations = `ls` at every valid path of every level, at invalid / corrupted paths, and `export`; ALL sequences of <= 3 "
         "operations over a reduced operation set (exhaustive) and random sequences of <= 12 operations, each sequence run on ONE opened image object, "
         "every operation's stdout (and exported tree) compared with the same operation on a freshly opened image; SHA-256 of the image file(s) before "
-        "and after. The memo-protocol model (Lazy.v) is run on the same histories with the real answers as its realisation function. "
+        "and after; the CLI started in separate processes under different string-hash seeds on images with several duplicate-name groups. The memo-protocol model (Lazy.v) is run on the same histories with the real answers as its realisation function. "
         "Non-trivial = history of >= 2 operations; distinct = distinct (image, history)")
 
 
@@ -168,8 +168,51 @@ def w_image(pid, tier, seed, job):
     return ctx.dump()
 
 
+def w_procs(pid, tier, seed, job):
+    """Repeated runs in SEPARATE processes (the CLI as a user starts it), each under another string-hash seed: the export tree and
+    the listings depend on the image bytes only."""
+    import subprocess
+    import sys
+    import akai_writer as AW
+    ctx = F.Ctx(pid, tier, seed)
+    rng = random.Random(job)
+    if job % 2 == 0:
+        # several groups of identically named siblings that differ only in the separator before L/R, plus plain duplicates
+        names = ["PAD L", "PAD L", "PAD-L", "PAD-L", "PAD  L", "X", "X", "KICK", "PAD R", "PAD-R", "X"]
+        rng.shuffle(names)
+        files = [AW.SampleFile(name=n, pcm=struct.pack("<3h", i, 100 + i, 7)) for i, n in enumerate(names)]
+        vols = [AW.Volume("VOL A", files), AW.Volume("VOL A", files[:3]), AW.Volume("VOL-A", files[3:6])]
+        name, data, extra, inner = "a.img", AW.image_bytes([AW.Partition(vols, size_sectors=64)]), {}, ["", "A", "A/VOL A", "A/VOL A/PAD (2) L"]
+    else:
+        titles = ["Interlude", "Song L", "Interlude", "Song-L", "Song L", "Interlude", "Song R"]
+        rng.shuffle(titles)
+        tracks = [{"indices": [(1, 0, 0, i)], "title": t} for i, t in enumerate(titles)]
+        name, data, extra, inner = "t.cue", R.cue_text("t.bin", tracks).encode("ascii"), {"t.bin": bytes((i * 31) % 256 for i in range(2352 * (len(titles) + 1)))}, ["", "Interlude (2)"]
+    runs = []
+    with R.TempImage(data, name, extra) as path:
+        for hs in ("0", "1", "2", "3") if tier == "quick" else [str(k) for k in range(8)]:
+            env = dict(os.environ, PYTHONHASHSEED=hs, PYTHONPATH=F.REPO)
+            outs = []
+            for p_ in inner:
+                r = subprocess.run([sys.executable, "-m", "smpl_extract", "ls", path, p_], env=env, capture_output=True, text=True, timeout=120)
+                outs.append((r.returncode, r.stdout))
+            dest = R.scratch_dir("c16p")
+            try:
+                r = subprocess.run([sys.executable, "-m", "smpl_extract", "export", path, "-d", dest], env=env, capture_output=True, text=True, timeout=300)
+                tree = R.read_tree(dest)
+            finally:
+                shutil.rmtree(dest, ignore_errors=True)
+            runs.append((outs, r.returncode, sorted(l for l in r.stdout.splitlines() if l.startswith("Exported ")), {k: hashlib.sha256(v).hexdigest() for k, v in tree.items()}))
+    ctx.count("separate_processes", (job, len(runs)), nontrivial=True)
+    diff = [i for i, x in enumerate(runs) if x != runs[0]]
+    ctx.require("repeated runs (separate processes, different string-hash seeds) list and export the same", {"image": name, "seed": job, "hash_seeds": len(runs)},
+                not diff and runs[0][1] == 0, {"differing_runs": diff, "first": (runs[0][1], runs[0][2][:6]), "other": (runs[diff[0]][1], runs[diff[0]][2][:6]) if diff else None})
+    return ctx.dump()
+
+
 def run(ctx):
     F.pmap(ctx, w_image, [ctx.seed * 43 + i for i in range(16 if ctx.quick else 96)])
+    F.pmap(ctx, w_procs, [ctx.seed * 47 + i for i in range(2 if ctx.quick else 8)])
 
 
 def replay(ctx, case):
